@@ -118,3 +118,12 @@ Proof.
   intros t phi H T fire. unfold T, fire, c_rtimer_accuracy.
   replace (20 * t / 20)%N with t by (rewrite N.mul_comm, N.div_mul; lia). lia.
 Qed.
+
+(* After never leaves the table of wheels locked, whether it returns a channel or panics *)
+Theorem rt_after_unlocks : forall T w, snd (rt_after_full T w) = false.
+Proof. intros T w. unfold rt_after_full. destruct (rt_tick T =? 0)%N; [reflexivity|]. destruct (rt_after T w); reflexivity. Qed.
+(* it panics for every duration below the accuracy (the read timeout 0 included) *)
+Theorem rt_after_tiny_panics : forall T, (T < c_rtimer_accuracy)%N -> rt_panics T = true.
+Proof.
+  intros T H. unfold rt_panics, rt_after_full, rt_tick. rewrite (N.div_small T c_rtimer_accuracy H). reflexivity.
+Qed.
